@@ -1455,6 +1455,14 @@ var c10MatchPaths = [][]string{
 	{"spec", "containers", "[name=x]", "image", "z"}, {"spec", "containers", "name"},
 }
 
+// (document, path to a list, length of that list)
+var c10MatchPairs = []struct {
+	doc    int
+	prefix []string
+	n      int
+}{{0, []string{"spec", "containers"}, 4}, {1, []string{"spec", "containers"}, 2}, {2, []string{"spec", "containers"}, 0}, {6, []string{"spec", "args"}, 4},
+	{7, []string{"spec", "containers", "[name=x]", "ports"}, 2}, {12, []string{"a"}, 2}, {12, []string{"a", "0"}, 2}, {4, []string{"spec", "containers"}, 0}, {3, []string{"spec", "containers"}, 0}}
+
 func c10RunMatchJob(c c10Case) *c10Job {
 	return &c10Job{req: c10ChildReq{Kind: "match", Doc: c.Doc, Path: c.Path, Create: c.Create}}
 }
@@ -2025,6 +2033,17 @@ func runC10(run *Run, rng *Rng, tier string) error {
 	for i := 0; i < 260*scale; i++ {
 		g := rng.Fork()
 		c := c10Case{Kind: "match", Doc: pickN(g, c10MatchDocs), Path: c10MatchPaths[g.Intn(len(c10MatchPaths))]}
+		if g.Chance(22) { // indices around the length of the list they address
+			pr := c10MatchPairs[g.Intn(len(c10MatchPairs))]
+			c.Doc = c10MatchDocs[pr.doc]
+			c.Path = append(append([]string{}, pr.prefix...), strconv.Itoa(pr.n+g.Intn(3)-1))
+			if c.Path[len(c.Path)-1] == "-1" {
+				c.Path[len(c.Path)-1] = "0"
+			}
+			if g.Chance(50) {
+				c.Path = append(c.Path, pickN(g, []string{"image", "name", "0", "[name=x]", "*"}))
+			}
+		}
 		if g.Chance(45) {
 			c.Create = []int{int(kyaml.ScalarNode), int(kyaml.MappingNode), int(kyaml.SequenceNode)}[g.Intn(3)]
 		}
